@@ -3030,6 +3030,450 @@ def r06_9(prog, rep, rid='R06.9'):
 
 # ------------------------------------------------------------------------------
 #
+# ------------------------------------------------------------------------------
+# R06.10  every notification of a message reaches _update_tasks
+#
+# The subscriber callback (the method handed to register_subscriber from which
+# _update_tasks is reached) is evaluated by the interpreter above on concrete
+# messages: the component object is opaque (tests on its data are explored in
+# both directions), methods of the class called on self are followed, and the
+# batches handed to _update_tasks are recorded.  Per task, the notifications
+# handed over must lead - under the documented state model - to the same
+# announced states and the same last state as the notifications of the message.
+#
+class _SelfObj:
+    """the component object: nothing is known about its data attributes"""
+    def __repr__(self):
+        return '<self>'
+
+    def __deepcopy__(self, memo):
+        return self
+
+
+_SELF = _SelfObj()
+
+
+class _BatchInterp(_Interp):
+    def __init__(self, prog, cls, sink, entry, msgname, decisions):
+        _Interp.__init__(self, prog, budget=60000)
+        self.cls, self.sink, self.entry = cls, sink, entry
+        self.msgname = msgname
+        self.decisions, self.used = decisions, 0
+        self.handed = []         # arguments of the calls of the sink
+        self.msg_read = False    # the message was looked at
+        self.tainted = False     # an unknown test was decided after that
+
+    def decide(self):
+        if self.used >= len(self.decisions):
+            self.decisions.append(False)
+        d = self.decisions[self.used]
+        self.used += 1
+        if self.msg_read:
+            self.tainted = True
+        return d
+
+    def truth(self, e, fr):
+        v = self.ev(e, fr)
+        if isinstance(v, _Opq):
+            return self.decide()
+        if isinstance(v, (_Fn, _Bi, _Attr, _SelfObj)):
+            self.fail(fr.f, e, 'is tested but its value is not known')
+        return bool(v)
+
+    def _e_BoolOp(self, e, fr):
+        is_and = isinstance(e.op, ast.And)
+        v = None
+        for x in e.values:
+            v = self.ev(x, fr)
+            if isinstance(v, _Opq):
+                v = self.decide()
+            elif isinstance(v, (_Fn, _Bi, _Attr, _SelfObj)):
+                self.fail(fr.f, x, 'is tested but its value is not known')
+            if bool(v) != is_and:
+                return v
+        return v
+
+    def _e_Name(self, e, fr):
+        if fr.f is self.entry and e.id == self.msgname:
+            self.msg_read = True
+        return _Interp._e_Name(self, e, fr)
+
+    def _e_Attribute(self, e, fr):
+        if isinstance(e.value, ast.Name) and e.value.id in fr.env and \
+                fr.env[e.value.id] is _SELF:
+            return _OPQ          # a data attribute of the component
+        return _Interp._e_Attribute(self, e, fr)
+
+    def _e_Call(self, e, fr):
+        import copy
+        fn = e.func
+        plain = not any(isinstance(a, ast.Starred) for a in e.args) and \
+            not any(k.arg is None for k in e.keywords)
+        if plain and isinstance(fn, ast.Attribute):
+            base = self.ev(fn.value, fr)
+            if base is _SELF:
+                args = [self.ev(a, fr) for a in e.args]
+                kw = {k.arg: self.ev(k.value, fr) for k in e.keywords}
+                m = self.prog.find_method(self.cls, fn.attr)
+                if m is not None and m.name == self.sink.name:
+                    self.handed.append(copy.deepcopy(args + list(kw.values())))
+                    return None
+                if m is None:
+                    if any(isinstance(a, (list, dict, set))
+                           for a in args + list(kw.values())):
+                        self.fail(fr.f, e, 'hands a mutable value to a callee '
+                                  'that cannot be followed')
+                    return _OPQ
+                kind, v = self.call(m, [_SELF] + args, kw, fr.depth + 1)
+                if kind == 'raise':
+                    raise _RaiseX(v)
+                return v
+            if base is _OPQ and fn.attr == 'as_list' and len(e.args) == 1 \
+                    and not e.keywords:
+                # radical.utils.as_list: None -> [], a list as it is, any
+                # other value -> [value]
+                v = self.ev(e.args[0], fr)
+                if v is None:
+                    return []
+                if isinstance(v, (list, tuple, set)):
+                    return v
+                if v is _OPQ:
+                    return _OPQ
+                return [v]
+        return _Interp._e_Call(self, e, fr)
+
+
+def _announced(prog, seq):
+    """(announced states, last state) of a task that starts in the first
+    state of the model and receives the notifications seq, under the
+    documented model (late and duplicated ones are ignored, skipped states
+    are filled in, a final state is entered directly and never left)"""
+    tab, nonfinal, final = _states(prog)
+    cur, out = nonfinal[0], []
+    for s in seq:
+        if s not in tab:
+            raise AnalysisError('R06.10: `%s` is not a task state' % (s,))
+        if cur in final or tab[s] <= tab[cur]:
+            continue
+        if s not in final:
+            out += [x for x in nonfinal if tab[cur] < tab[x] < tab[s]]
+        out.append(s)
+        cur = s
+    return out, cur
+
+
+def _subscriber_entries(prog, tm, sink):
+    """methods of the task manager registered as subscriber callbacks from
+    which the sink is reached through calls on self"""
+    def self_calls(f):
+        return {c.func.attr for c in calls_in(f.node, nested=True)
+                if isinstance(c.func, ast.Attribute) and
+                isinstance(c.func.value, ast.Name) and
+                c.func.value.id == 'self'}
+    reach = {}
+    for name, f in tm.methods.items():
+        seen, todo = set(), [f]
+        while todo:
+            h = todo.pop()
+            for nm in self_calls(h):
+                if nm not in seen:
+                    seen.add(nm)
+                    m = prog.find_method(tm, nm)
+                    if m is not None and m.name != sink.name:
+                        todo.append(m)
+        reach[name] = seen
+    entries = []
+    for f in tm.methods.values():
+        for c in calls_in(f.node, nested=True):
+            if call_name(c).endswith('register_subscriber') and \
+                    len(c.args) >= 2 and \
+                    isinstance(c.args[1], ast.Attribute) and \
+                    unparse(c.args[1].value) == 'self':
+                m = prog.find_method(tm, c.args[1].attr)
+                if m is not None and sink.name in reach.get(m.name, ()) and \
+                        m not in entries:
+                    entries.append(m)
+    direct = [f for n, f in tm.methods.items()
+              if sink.name in self_calls(f) and f.name != sink.name]
+    for f in direct:
+        if f not in entries and not any(
+                f.name in reach[e.name] for e in entries):
+            raise AnalysisError('UNRECOGNISED-IDIOM %s: calls %s but is not '
+                                'reached from a subscriber callback'
+                                % (f.where, sink.name))
+    return entries
+
+
+def r06_10(prog, rep, rid='R06.10'):
+    rep.rule(rid, 'the state subscriber hands every task notification of a '
+             'message to _update_tasks: per task, what is handed over '
+             'announces the same states as the notifications received '
+             '(evaluated on concrete messages with reordered, duplicated '
+             'and interleaved notifications)', minimum=2)
+    tm = prog.cls(*TMGR)
+    sink = prog.find_method(tm, '_update_tasks')
+    if sink is None:
+        raise AnalysisError('anchor %s._update_tasks not found' % tm.where)
+    entries = _subscriber_entries(prog, tm, sink)
+    if not entries:
+        raise AnalysisError('UNRECOGNISED-IDIOM %s: no subscriber callback '
+                            'reaches %s' % (tm.where, sink.name))
+    tab, nonfinal, final = _states(prog)
+    done = [s for s in final if s == 'DONE'] or final[:1]
+    fail = [s for s in final if s == 'FAILED'] or final[-1:]
+    n = len(nonfinal)
+    if n < 6:
+        raise AnalysisError('R06.10: state model too small')
+
+    def note(uid, state, ty='task'):
+        return {'type': ty, 'uid': uid, 'state': state}
+    bulk = [note('t1', done[0]),                 # final state first ...
+            note('p1', 'PMGR_ACTIVE', 'pilot'),
+            note('t2', nonfinal[n // 2]),        # in order
+            note('t1', nonfinal[-1]),            # ... late one last
+            note('t2', nonfinal[n // 2 + 1]),
+            note('t3', nonfinal[2]),
+            note('t3', nonfinal[2]),             # duplicate
+            note('t4', fail[0]),
+            note('t4', nonfinal[-2]),
+            note('t6', nonfinal[3]),             # reordered, not final
+            note('t6', nonfinal[1]),
+            note('t5', nonfinal[n // 2])]
+    messages = [('a bulk with reordered, duplicated and interleaved '
+                 'notifications', bulk),
+                ('a single notification (not a list)',
+                 note('t1', nonfinal[3])),
+                ('a bulk of two tasks', [note('t1', nonfinal[1]),
+                                         note('t2', nonfinal[2])])]
+
+    def per_task(things):
+        out = {}
+        for t in things:
+            if not isinstance(t, dict) or 'uid' not in t or 'state' not in t:
+                return None
+            if t.get('type', 'task') != 'task':
+                continue
+            out.setdefault(t['uid'], []).append(t['state'])
+        return out
+
+    import copy
+    for f in entries:
+        rep.saw(f)
+        params = [p for p in f.params if p != 'self']
+        if len(params) != 2:
+            raise AnalysisError('UNRECOGNISED-IDIOM %s: not a (topic, msg) '
+                                'subscriber callback' % f.where)
+        for what, arg in messages:
+            things = arg if isinstance(arg, list) else [arg]
+            want = per_task(things)
+            show = ' '.join('%s:%s' % (t['uid'], t['state']) for t in things)
+            decisions, paths, judged, bad = [], 0, 0, False
+            while True:
+                paths += 1
+                if paths > 64:
+                    raise AnalysisError('UNRECOGNISED-IDIOM %s: more than 64 '
+                                        'paths over unknown tests' % f.where)
+                ip = _BatchInterp(prog, tm, sink, f, params[1], decisions)
+                kind, v = ip.call(f, [_SELF, 'state_pubsub',
+                                      {'cmd': 'update',
+                                       'arg': copy.deepcopy(arg)}])
+                gate = not ip.msg_read and not ip.handed
+                if not gate:
+                    if kind == 'raise':
+                        raise AnalysisError(
+                            'UNRECOGNISED-IDIOM %s: raises %s for the '
+                            'message [%s]' % (f.where, v, show))
+                    got_l = []
+                    for call_args in ip.handed:
+                        if len(call_args) != 1 or not isinstance(
+                                call_args[0], (list, tuple)):
+                            raise AnalysisError(
+                                'UNRECOGNISED-IDIOM %s: what is handed to %s '
+                                'is not a known list' % (f.where, sink.name))
+                        got_l += list(call_args[0])
+                    got = per_task(got_l)
+                    if got is None:
+                        raise AnalysisError(
+                            'UNRECOGNISED-IDIOM %s: what is handed to %s is '
+                            'not a list of notifications'
+                            % (f.where, sink.name))
+                    diff = []
+                    for uid in sorted(want):
+                        w = _announced(prog, want[uid])
+                        g = _announced(prog, got.get(uid, []))
+                        if w != g:
+                            diff.append(
+                                '%s receives [%s] of its notifications [%s]: '
+                                'its last state is %s instead of %s' % (
+                                    uid, ' '.join(got.get(uid, [])) or
+                                    'nothing', ' '.join(want[uid]), g[1],
+                                    w[1]) if g[1] != w[1] else
+                                '%s receives [%s] of its notifications [%s]: '
+                                'announced [%s] instead of [%s]' % (
+                                    uid, ' '.join(got.get(uid, [])) or
+                                    'nothing', ' '.join(want[uid]),
+                                    ' '.join(g[0]), ' '.join(w[0])))
+                    for uid in sorted(set(got) - set(want)):
+                        diff.append('%s is handed over but was not in the '
+                                    'message' % uid)
+                    if diff and ip.tainted:
+                        raise AnalysisError(
+                            'UNRECOGNISED-IDIOM %s: notifications are dropped '
+                            'depending on a test that is not decided here '
+                            '(%s)' % (f.where, diff[0]))
+                    judged += 1
+                    if diff:
+                        bad = True
+                        rep.bad(rid, f, 'subscriber:batch',
+                                '%s.%s does not hand all task notifications '
+                                'of a message to %s (%s): %s.  _update_tasks '
+                                'can only ignore late and duplicated '
+                                'notifications and fill in skipped states '
+                                'for the notifications it sees; nothing '
+                                're-sends a dropped one, so the application '
+                                'never sees the states (possibly the final '
+                                'state) it carried'
+                                % (tm.name, f.name, sink.name, what,
+                                   '; '.join(diff[:3])), f.loc(),
+                                history='one message [%s]' % show)
+                        break
+                # next path: flip the last unknown test decided False
+                decisions = ip.decisions[:ip.used]
+                while decisions and decisions[-1]:
+                    decisions.pop()
+                if not decisions:
+                    break
+                decisions[-1] = True
+            if bad:
+                break
+            if judged == 0:
+                raise AnalysisError('UNRECOGNISED-IDIOM %s: no path looks at '
+                                    'the message' % f.where)
+            if True:
+                rep.ok(rid, f, 'per task, the notifications handed to %s '
+                       'announce the same states as those of the message '
+                       '(%s, %d path%s)' % (sink.name, what, judged,
+                                            's' if judged > 1 else ''),
+                       f.loc())
+
+
+# ------------------------------------------------------------------------------
+# R06.11  the batch loop treats a notification on its own merits
+#
+# Whether a notification reaches the progress call may depend on the
+# notification, on the task object and on the component - not on what an
+# earlier notification of the same batch left in a local of _update_tasks
+# (a `seen` set, a "last uid", a counter).  A skip that is decided by such a
+# local without looking at the state of the notification drops a notification
+# which may be the more advanced one.
+#
+def r06_11(prog, rep, rid='R06.11'):
+    rep.rule(rid, 'no test that decides whether a notification of the batch '
+             'reaches _task_state_progress depends on a local that earlier '
+             'notifications of the same batch have written', minimum=1)
+    tm, f, g, smap, H = batch_info(prog)
+    prog_calls = [c for c in calls_in(f.node)
+                  if call_name(c).endswith('_task_state_progress')]
+    if len(prog_calls) != 1:
+        raise AnalysisError('UNRECOGNISED-IDIOM %s: _task_state_progress call'
+                            % f.where)
+    pn = smap[id(prog_calls[0])]
+    body = g.loop_body[H.id]
+    start = loop_slice(g, H.id)[0]
+    tdv = set(stores_in_target(H.ast.target))
+    # locals written inside the loop body: assigned, augmented, stored into
+    # or changed through a mutating method
+    written = set()
+    for n in g.nodes:
+        if n.id not in body or n.ast is None:
+            continue
+        if n.kind == 'for':
+            written |= set(stores_in_target(n.ast.target))
+            continue
+        if n.kind not in ('stmt', 'test'):
+            continue
+        for x in walk(n.ast):
+            if isinstance(x, (ast.Assign, ast.AugAssign, ast.AnnAssign)):
+                tg = x.targets if isinstance(x, ast.Assign) else [x.target]
+                for t in tg:
+                    if isinstance(t, (ast.Subscript, ast.Attribute)):
+                        r = root_name(t)
+                        if isinstance(r, str):
+                            written.add(r)
+                    else:
+                        written |= set(stores_in_target(t))
+            elif isinstance(x, ast.NamedExpr):
+                written |= set(stores_in_target(x.target))
+            elif isinstance(x, ast.Call) and \
+                    isinstance(x.func, ast.Attribute) and \
+                    x.func.attr in ('append', 'extend', 'insert', 'add',
+                                    'update', 'setdefault', 'appendleft',
+                                    'pop', 'remove', 'discard', 'clear') and \
+                    isinstance(x.func.value, ast.Name):
+                written.add(x.func.value.id)
+    written -= {'self'} | tdv
+
+    def expand(e, at):
+        """(names, reads the state of the notification / the task) of an
+        expression after following the definitions made in this iteration"""
+        names, state, todo, seen = set(), False, [(e, at)], set()
+        while todo:
+            x, at = todo.pop()
+            for y in walk(x):
+                if isinstance(y, ast.Subscript) and \
+                        isinstance(y.slice, ast.Constant) and \
+                        y.slice.value == 'state':
+                    state = True
+                if isinstance(y, ast.Attribute) and y.attr in _STATE_ATTRS:
+                    state = True
+                if isinstance(y, ast.Name) and (y.id, at) not in seen:
+                    seen.add((y.id, at))
+                    # (the name and the place where it is read)
+                    names.add((y.id, at))
+                    for dn, dv in reaching_defs(g, y.id, at):
+                        if dn.id in body and dv is not None and \
+                                len(seen) < 200:
+                            todo.append((dv, dn.id))
+        return names, state
+
+    n_tests = 0
+    for tid, lab in guards(g, pn.id, start=start):
+        t = g.nodes[tid]
+        if t.id not in body or t.ast is None:
+            continue
+        n_tests += 1
+        names, state = expand(t.ast, tid)
+        carried = sorted({
+            c for c, at in names if c in written and
+            any(dn.id not in body for dn, dv in reaching_defs(g, c, at))})
+        if not carried:
+            rep.ok(rid, f, '`%s` does not depend on earlier notifications of '
+                   'the batch' % short(t.ast, 40), f.loc(t.ast))
+            continue
+        if state:
+            raise AnalysisError(
+                'UNRECOGNISED-IDIOM %s: `%s` decides on a notification by '
+                'what earlier notifications of the batch left in `%s` and by '
+                'its state: equivalence with the state model is not decided '
+                'here' % (f.where, short(t.ast, 40), ', '.join(carried)))
+        rep.bad(rid, f, 'batch:skip-by-history',
+                'TaskManager._update_tasks decides with `%s` whether a '
+                'notification is applied, and `%s` is written while earlier '
+                'notifications of the same batch are handled; the test does '
+                'not look at the state of the notification.  A bulk can carry '
+                'several notifications for one task, in any order: the one '
+                'that is skipped may be the more advanced one (the final '
+                'state), and nothing re-sends it'
+                % (short(t.ast, 50), ', '.join(carried)), f.loc(t.ast),
+                history='one batch [t1:AGENT_EXECUTING_PENDING, '
+                't1:AGENT_EXECUTING] or [t1:TMGR_STAGING_OUTPUT, t1:DONE]: '
+                'the second notification is dropped, t1 never reaches the '
+                'later state')
+    if n_tests < 1:
+        raise AnalysisError('UNRECOGNISED-IDIOM %s: no test guards the '
+                            'progress call inside the batch loop' % f.where)
+
+
 def run(prog, rep, tier):
     rep.decided = ('the state table is a linear order with shared final '
         'value and X_PENDING directly before X; Task._state is written only '
@@ -3056,8 +3500,16 @@ def run(prog, rep, tier):
         'Task._update outside that replay (the pilot-death callback) is, for '
         'each final current state, either excluded by the guards of the '
         'caller or refused by Task._update (decided by evaluating both '
-        'functions over the state constants).')
-    rep.undecided = ('what application callbacks do; histories of '
+        'functions over the state constants); the state subscriber, '
+        'evaluated on concrete messages (reordered, duplicated, interleaved '
+        'notifications, a single one), hands to _update_tasks, per task, '
+        'notifications that announce the same states as those received; no '
+        'test in front of the progress call in the batch loop depends on a '
+        'local written while earlier notifications of the batch were handled.')
+    rep.undecided = ('what application callbacks do; a notification skipped '
+        'inside the batch loop of _update_tasks by a test over both its state '
+        'and what earlier notifications of the batch left in a local '
+        '(reported as not analysable); histories of '
         '_task_state_progress calls other than the two enumeration orders '
         '(a discrepancy that only shows after three or more specific calls); '
         'removal of callbacks guarded by the announced state being final '
@@ -3083,6 +3535,8 @@ def run(prog, rep, tier):
     rep.attempt(r06_7, prog, rep)
     rep.attempt(r06_8, prog, rep)
     rep.attempt(r06_9, prog, rep)
+    rep.attempt(r06_10, prog, rep)
+    rep.attempt(r06_11, prog, rep)
 
 
 # ------------------------------------------------------------------------------
@@ -3570,4 +4024,151 @@ SILENT += [
     dict(name='R06.9 site: callback and its data unpacked in the loop header', edits=[
         (_M, "            for cb_dict in cb_dicts:\n\n                cb      = cb_dict['cb']\n                cb_data = cb_dict['cb_data']\n",
              "            for cb, cb_data in [(x['cb'], x['cb_data']) for x in cb_dicts]:\n")]),
+]
+
+# round 6: the subscriber hands the whole message to _update_tasks (R06.10)
+_SUB_CALL = "        self._update_tasks(tasks)\n\n        return True\n"
+_SUB_FILT = ("        tasks  = [thing for thing in things "
+             "if thing.get('type') == 'task']\n")
+_SUB_DEF = "    def _state_sub_cb(self, topic, msg):\n"
+_SUB_CMD = ("        if cmd != 'update':\n"
+            "            self._log.debug('ignore state cb msg with cmd %s', cmd)\n"
+            "            return True\n\n"
+            "        things = ru.as_list(arg)\n" + _SUB_FILT + "\n" + _SUB_CALL)
+
+MUTATIONS += [
+    dict(name='R06.10 only the last update per task of a bulk is handed on (seed C06-i4)', rules=('R06.10',), edits=[
+        (_M, _SUB_CALL, "        latest = {task['uid']: task for task in tasks}\n\n"
+                        "        self._update_tasks(list(latest.values()))\n\n"
+                        "        return True\n")],
+         note='a reordered bulk: the late notification wins, the final state is dropped'),
+    dict(name='R06.10 last update per task, collected in a loop', rules=('R06.10',), edits=[
+        (_M, _SUB_CALL, "        latest = dict()\n"
+                        "        for task in tasks:\n"
+                        "            latest[task['uid']] = task\n\n"
+                        "        self._update_tasks([latest[uid] for uid in latest])\n\n"
+                        "        return True\n")]),
+    dict(name='R06.10 only the first update per task of a bulk is handed on', rules=('R06.10',), edits=[
+        (_M, _SUB_CALL, "        seen, first = set(), list()\n"
+                        "        for task in tasks:\n"
+                        "            if task['uid'] in seen:\n"
+                        "                continue\n"
+                        "            seen.add(task['uid'])\n"
+                        "            first.append(task)\n\n"
+                        "        self._update_tasks(first)\n\n"
+                        "        return True\n")],
+         note='an in-order bulk [t2:AGENT_EXECUTING_PENDING t2:AGENT_EXECUTING] loses the second state'),
+    dict(name='R06.10 most advanced update per task, states compared as strings', rules=('R06.10',), edits=[
+        (_M, _SUB_CALL, "        best = dict()\n"
+                        "        for task in tasks:\n"
+                        "            uid = task['uid']\n"
+                        "            if uid not in best or task['state'] > best[uid]['state']:\n"
+                        "                best[uid] = task\n\n"
+                        "        self._update_tasks(list(best.values()))\n\n"
+                        "        return True\n")],
+         note='"DONE" < "TMGR_STAGING_OUTPUT" as strings'),
+    dict(name='R06.10 the first notification of a bulk is skipped', rules=('R06.10',), edits=[
+        (_M, _SUB_CALL, "        self._update_tasks(tasks[1:])\n\n        return True\n")]),
+    dict(name='R06.10 only the last notification of a bulk is handed on', rules=('R06.10',), edits=[
+        (_M, _SUB_CALL, "        self._update_tasks(tasks[-1:])\n\n        return True\n")]),
+    dict(name='R06.10 final-state notifications filtered out of the bulk', rules=('R06.10',), edits=[
+        (_M, _SUB_FILT, "        tasks  = [thing for thing in things if thing.get('type') == 'task'\n"
+                        "                                           and thing['state'] not in rps.FINAL]\n")]),
+    dict(name='R06.10 fast path hands single notifications on, bulks of one task collapsed', rules=('R06.10',), edits=[
+        (_M, _SUB_CALL, "        if len(tasks) > 1:\n"
+                        "            tasks = list({t['uid']: t for t in tasks}.values())\n\n"
+                        + _SUB_CALL)]),
+]
+
+SILENT += [
+    dict(name='R06.10 site: filter as loop with early continue', edits=[
+        (_M, _SUB_FILT, "        tasks = list()\n"
+                        "        for thing in things:\n"
+                        "            if thing.get('type') != 'task':\n"
+                        "                continue\n"
+                        "            tasks.append(thing)\n")]),
+    dict(name='R06.10 site: filter inlined into the call, renamed locals, copy', edits=[
+        (_M, _SUB_FILT + "\n" + _SUB_CALL,
+             "        self._update_tasks(list(t for t in things if t.get('type') == 'task'))\n\n"
+             "        return True\n")]),
+    dict(name='R06.10 site: filter in an extracted helper method', edits=[
+        (_M, _SUB_FILT, "        tasks  = self._task_things(things)\n"),
+        (_M, _SUB_DEF, "    def _task_things(self, things):\n"
+                       "        return [thing for thing in things if thing.get('type') == 'task']\n\n"
+                       + _SUB_DEF)]),
+    dict(name='R06.10 site: nothing handed on for a message without task notifications', edits=[
+        (_M, _SUB_CALL, "        if not tasks:\n            return True\n\n" + _SUB_CALL)]),
+    dict(name='R06.10 site: command test in positive, nested form', edits=[
+        (_M, _SUB_CMD,
+             "        if cmd == 'update':\n"
+             "            things = ru.as_list(arg)\n"
+             "            tasks  = [thing for thing in things if thing.get('type') == 'task']\n"
+             "            self._update_tasks(tasks)\n"
+             "        else:\n"
+             "            self._log.debug('ignore state cb msg with cmd %s', cmd)\n\n"
+             "        return True\n")]),
+    dict(name='R06.10 site: one call of _update_tasks per notification, in order', edits=[
+        (_M, _SUB_CALL, "        for task in tasks:\n            self._update_tasks([task])\n\n        return True\n")]),
+]
+
+# round 6: further variants of the round-6 kinds of slip at sibling sites
+_TN = "        to_notify = list()\n\n        with self._tasks_lock:\n"
+MUTATIONS += [
+    dict(name='R06.5 current state cached per task over the batch (stale for the second notification)', rules=('R06.5',), edits=[
+        (_M, _TN, "        to_notify = list()\n        states    = dict()\n\n        with self._tasks_lock:\n"),
+        (_M, "                current = task.state\n                target  = task_dict['state']\n",
+             "                current = states.setdefault(uid, task.state)\n                target  = task_dict['state']\n")],
+         note='[t1:A t1:B] in one bulk: the states up to A are replayed and announced twice'),
+    dict(name='R06.5 callback records kept per task (clean-up: one record per task)', rules=('R06.5',), edits=[
+        (_M, _TN, "        to_notify = dict()\n\n        with self._tasks_lock:\n"),
+        (_M, "                        to_notify.append([task, s])\n", "                        to_notify[task] = s\n"),
+        (_M, "                for task, state in to_notify:\n", "                for task, state in to_notify.items():\n"),
+        (_M, "set([task for task,_ in to_notify])", "set(to_notify)")],
+         note='a skip over N states announces only the last one'),
+    dict(name='R06.4 replay step retried, the retry handler is narrower than what _update raises', rules=('R06.4',), edits=[
+        (_M, "                        task_dict['state'] = s\n                        self._tasks[uid]._update(task_dict)\n\n                        to_notify.append([task, s])\n",
+             "                        task_dict['state'] = s\n                        for attempt in range(2):\n                            to_notify.append([task, s])\n                            try:\n                                self._tasks[uid]._update(task_dict)\n                                break\n                            except KeyError:\n                                pass\n")]),
+]
+
+# round 6: the same coalescing slip inside _update_tasks (R06.11)
+_UID = ("                uid = task_dict['uid']\n\n"
+        "                # we don't care about tasks we don't know\n")
+MUTATIONS += [
+    dict(name='R06.11 one update per task and batch: uids seen are skipped in the batch loop', rules=('R06.11',), edits=[
+        (_M, _TN, "        to_notify = list()\n        seen      = set()\n\n        with self._tasks_lock:\n"),
+        (_M, _UID, "                uid = task_dict['uid']\n\n"
+                   "                if uid in seen:\n"
+                   "                    continue\n"
+                   "                seen.add(uid)\n\n"
+                   "                # we don't care about tasks we don't know\n")]),
+    dict(name='R06.11 consecutive notifications for the same task are skipped', rules=('R06.11',), edits=[
+        (_M, _TN, "        to_notify = list()\n        last      = None\n\n        with self._tasks_lock:\n"),
+        (_M, _UID, "                uid = task_dict['uid']\n\n"
+                   "                same = (uid == last)\n"
+                   "                last = uid\n"
+                   "                if same:\n"
+                   "                    continue\n\n"
+                   "                # we don't care about tasks we don't know\n")]),
+    dict(name='R06.11 tasks updated in this batch are remembered in a dict and not updated again', rules=('R06.11',), edits=[
+        (_M, _TN, "        to_notify = list()\n        updated   = dict()\n\n        with self._tasks_lock:\n"),
+        (_M, "                if not task:\n", "                if not task or updated.get(uid):\n"),
+        (_M, "                current = task.state\n                target  = task_dict['state']\n",
+             "                updated[uid] = True\n                current = task.state\n                target  = task_dict['state']\n")]),
+]
+
+SILENT += [
+    dict(name='R06.11 site: uids logged once per batch (a seen-set that only guards a log line)', edits=[
+        (_M, _TN, "        to_notify = list()\n        logged    = set()\n\n        with self._tasks_lock:\n"),
+        (_M, _UID, "                uid = task_dict['uid']\n\n"
+                   "                if uid not in logged:\n"
+                   "                    self._log.debug('tmgr: first update in bulk: %s', uid)\n"
+                   "                    logged.add(uid)\n\n"
+                   "                # we don't care about tasks we don't know\n")]),
+    dict(name='R06.11 site: notifications counted per batch', edits=[
+        (_M, _TN, "        to_notify = list()\n        n_seen    = 0\n\n        with self._tasks_lock:\n"),
+        (_M, _UID, "                uid = task_dict['uid']\n                n_seen += 1\n\n"
+                   "                # we don't care about tasks we don't know\n")]),
+    dict(name='R06.11 site: task object pre-initialised before the loop, unknown-task test on the local', edits=[
+        (_M, _TN, "        to_notify = list()\n        task      = None\n\n        with self._tasks_lock:\n"),
+        (_M, "                if not task:\n", "                if task is None:\n")]),
 ]
